@@ -168,6 +168,7 @@ func checkSwitchProgramX(k *h.Case, prog *spec.Program, cands []int, pins map[st
 		if !res.OK() {
 			k.Count("rejected", 1)
 			k.Count("rejected: "+rejectFamily(res.ErrString()), 1)
+			rejectedValid(k, prog, res, true)
 			return false
 		}
 		k.Count("accepted", 1)
@@ -287,6 +288,47 @@ func runC03(ctx *h.Ctx) int {
 			}
 			k.Sample(fmt.Sprintf("enumerated-ctx%d", cx), spec.Source(g.Prog))
 		}
+	})
+	// several scripts (and inline map scripts) with the same kind of switch in one file: whatever the emitter keeps
+	// per switch must not carry over from one script to the next
+	ctx.RunCases("switches-in-several-scripts", ctx.N(1500, 60000), func(k *h.Case) {
+		g := spec.NewGen(k.R, spec.Profile{})
+		cx := k.R.IntN(nSwitchContexts)
+		n := 2 + k.R.IntN(2)
+		var kindsAll [][]int
+		for i := 0; i < n; i++ {
+			kinds := lists[k.R.IntN(len(lists))]
+			if i > 0 && k.R.IntN(2) == 0 {
+				kinds = kindsAll[0]
+			}
+			kindsAll = append(kindsAll, kinds)
+			sw := buildSwitch(g, kinds)
+			body, _ := inContext(g, sw, cx)
+			if i == n-1 && k.R.IntN(3) == 0 {
+				m := &spec.MapScripts{ID: g.Prog.NewID(), Name: g.Name("Map"), Entries: []*spec.MSEntry{{ID: g.Prog.NewID(), Type: "MAP_SCRIPT_ON_LOAD", Kind: 1, Body: body}}}
+				g.Prog.Items = append(g.Prog.Items, m)
+			} else {
+				g.Prog.Items = append(g.Prog.Items, &spec.Script{ID: g.Prog.NewID(), Name: g.Name("Scr"), Body: body})
+			}
+		}
+		prog := g.Prog
+		src := spec.Source(prog)
+		k.SetSource(src)
+		for _, opt := range []bool{true, false} {
+			res := h.Compile(src, optsOf(prog, opt))
+			k.Count("evaluations", 1)
+			if !res.OK() {
+				k.Count("rejected", 1)
+				rejectedValid(k, prog, res, true)
+				return
+			}
+			k.Count("accepted", 1)
+			if !vmCheck(k, prog, res.Out, vmCheckOpts{NStates: 14, Cands: []int{0, 1, 2, 3, 4, 5, 6}, Orig: prog, Optimize: opt}, fmt.Sprintf("optimize=%v", opt)) {
+				return
+			}
+		}
+		k.Count("files_with_several_switch_scripts", 1)
+		k.Nontrivial("multi", cx, fmt.Sprint(kindsAll))
 	})
 	ctx.Exhaustive("case lists", int64(len(lists)), fmt.Sprintf("every list of 1..%d entries over {case empty, case body, body+break, break in the middle, break inside nested if, default empty, default body} with at most one default, each in %d contexts (alone, between commands, in while, in do-while, inside an outer switch case, in a condition-less while)", maxLen, nSwitchContexts))
 	rejectGuard(ctx, 0.05)
